@@ -89,9 +89,9 @@ func main() {
 	scs = append(scs, tableGrid()...)
 	scs = append(scs, captureGrid()...)
 	scs = append(scs, failureGrid()...)
-	nRandom := 400
+	nRandom := 500
 	if hx.Thorough() {
-		nRandom = 6000
+		nRandom = 12000
 	}
 	rng := hx.Rand()
 	for i := 0; i < nRandom; i++ {
